@@ -448,6 +448,8 @@ class TrajectoryCalc:
         # jump from short of the last record distance to past the loop bound: the row for that distance is still owed
         if filter_flags and record_step > 0 and data_filter.next_record_distance <= maximum_range + 1e-9 * record_step:
             data_filter.clear_current_flag()
+            # same air data as the loop would have used had it visited this point
+            density_factor, mach = shot_info.atmo.get_density_factor_and_mach_for_altitude(self.alt0 + range_vector.y)
             if (data := data_filter.should_record(range_vector, velocity_vector, mach, time)) is not None:
                 ranges.append(create_trajectory_row(data.time, data.position, data.velocity,
                     data.velocity.magnitude(), data.mach, self.spin_drift(data.time), self.look_angle,
